@@ -65,8 +65,74 @@ pub fn exec(func: &str, a: &mut Args) -> String {
             crate::p3::utils::remove_unused_points(&mut pts, &mut tris[..]);
             format!("{} {} {} {}", pts.len(), pts.iter().map(d3::fp).collect::<Vec<_>>().join(" "), tris.len(),
                 tris.iter().map(|t| format!("{} {} {}", t[0], t[1], t[2])).collect::<Vec<_>>().join(" ")).replace("  ", " ").trim().to_string() }
+        // the maintainers' validator transformation::check_convex_hull (returns () or panics).  Its duplicate-point branch
+        // println!s to stdout, which carries the harness protocol: stdout is flushed and sent to /dev/null around the call.
+        "validate3" => { let n = a.u(); let pts: Vec<_> = (0..n).map(|_| d3::p(a)).collect();
+            let m = a.u(); let tris: Vec<[u32; 3]> = (0..m).map(|_| [a.u() as u32, a.u() as u32, a.u() as u32]).collect();
+            use std::io::Write; use std::os::unix::io::AsRawFd;
+            extern "C" { fn dup(fd: i32) -> i32; fn dup2(a: i32, b: i32) -> i32; fn close(fd: i32) -> i32; }
+            let _ = std::io::stdout().flush();
+            let null = std::fs::OpenOptions::new().write(true).open("/dev/null").expect("devnull");
+            let saved = unsafe { dup(1) };
+            unsafe { dup2(null.as_raw_fd(), 1); }
+            let res = std::panic::catch_unwind(std::panic::AssertUnwindSafe(|| crate::p3::transformation::check_convex_hull(&pts, &tris)));
+            let _ = std::io::stdout().flush();
+            unsafe { dup2(saved, 1); close(saved); }
+            if res.is_ok() { "ok".into() } else { "panic".into() } }
         _ => "nofn".into(),
     }
+}
+
+/// a closed triangulated torus (`k x l` grid, Euler characteristic 0): closed 2-manifold that the validator must reject
+fn torus_mesh(k: usize, l: usize) -> (Vec<P3>, Vec<[u32; 3]>) {
+    let mut pts = Vec::new(); let mut tris = Vec::new();
+    for i in 0..k { for j in 0..l {
+        let (u, w) = (i as f64 / k as f64 * std::f64::consts::TAU, j as f64 / l as f64 * std::f64::consts::TAU);
+        pts.push(P3::new((2.0 + w.cos()) * u.cos(), (2.0 + w.cos()) * u.sin(), w.sin())); } }
+    let id = |i: usize, j: usize| ((i % k) * l + (j % l)) as u32;
+    for i in 0..k { for j in 0..l {
+        tris.push([id(i, j), id(i + 1, j), id(i + 1, j + 1)]); tris.push([id(i, j), id(i + 1, j + 1), id(i, j + 1)]); } }
+    (pts, tris)
+}
+
+/// inputs for `validate3`: a base mesh (hull of a cloud from the hull families, an explicit closed mesh, a tetrahedron) and one
+/// mutation.  0 none, 1 one point moved onto another (duplicate, counts unchanged; sometimes `-0.0` against `0.0`), 2 a triangle
+/// removed (open edges), 3 a triangle listed twice (edge with 4 sides), 4 a repeated index in a triangle, 5 an extra unused point
+/// (Euler 3), 6 one triangle flipped (the validator is orientation-blind: accepted), 7 two disjoint copies (Euler 4),
+/// 8 triangles shuffled and their indices rotated (accepted), 9 a torus (closed, Euler 0), 10 tiny buffers (0..2 points, 0..1 triangles),
+/// 11 a fan triangle re-glued: a triangle replaced by one sharing an already full edge (t-junction + open edge)
+fn validate_case(r: &mut Rng, fam: u64) -> (Vec<P3>, Vec<[u32; 3]>) {
+    let base = |r: &mut Rng| -> (Vec<P3>, Vec<[u32; 3]>) {
+        for _ in 0..8 {
+            let cloud = match r.below(4) { 0 => solid3(r), 1 => merged_solid(r), 2 => { let n = 4 + r.below(40) as usize; cloud3(r, 2, n) } _ => { let n = 4 + r.below(30) as usize; cloud3(r, 1, n) } };
+            if let Ok((v, t)) = try_convex_hull(&cloud) { if t.len() >= 4 && v.len() >= 4 { return (v, t); } }
+        }
+        (vec![P3::new(0.0, 0.0, 0.0), P3::new(1.0, 0.0, 0.0), P3::new(0.0, 1.0, 0.0), P3::new(0.0, 0.0, 1.0)], vec![[0, 2, 1], [0, 1, 3], [1, 2, 3], [2, 0, 3]])
+    };
+    if fam == 9 { return torus_mesh(3 + r.below(4) as usize, 3 + r.below(4) as usize); }
+    if fam == 10 {
+        let n = r.below(3) as usize; let pts: Vec<P3> = (0..n).map(|i| P3::new(i as f64, 1.0, -2.0)).collect();
+        let tris = if r.bool() && n > 0 { vec![[0, (n as u32 - 1).min(1), 2]] } else { vec![] };
+        return (pts, tris);
+    }
+    let (mut pts, mut tris) = base(r);
+    let nt = tris.len() as u64; let np = pts.len() as u64;
+    match fam {
+        1 => { let i = r.below(np) as usize; let j = (i + 1 + r.below(np - 1) as usize) % np as usize;
+               if r.below(3) == 0 { pts[i] = P3::new(0.0, 1.0, 2.0); pts[j] = P3::new(-0.0, 1.0, 2.0); } else { pts[j] = pts[i]; } }
+        2 => { let k = r.below(nt) as usize; tris.remove(k); }
+        3 => { let k = r.below(nt) as usize; let t = tris[k]; let at = r.below(nt + 1) as usize; tris.insert(at, t); }
+        4 => { let k = r.below(nt) as usize; let c = r.below(3) as usize; tris[k][c] = tris[k][(c + 1) % 3]; }
+        5 => { pts.push(P3::new(7.5, -3.25, 11.0)); }
+        6 => { let k = r.below(nt) as usize; tris[k].swap(1, 2); }
+        7 => { let off = pts.len() as u32; let p2: Vec<P3> = pts.iter().map(|p| P3::new(p.x + 1000.0, p.y, p.z)).collect();
+               let t2: Vec<[u32; 3]> = tris.iter().map(|t| [t[0] + off, t[1] + off, t[2] + off]).collect(); pts.extend(p2); tris.extend(t2); }
+        8 => { shuffle(r, &mut tris); for t in tris.iter_mut() { let k = r.below(3) as usize; t.rotate_left(k); } }
+        11 => { let k = r.below(nt) as usize; let k2 = (k + 1 + r.below(nt - 1) as usize) % nt as usize; let o = tris[k2];
+                let far = (0..np as u32).find(|v| !o.contains(v)).unwrap_or(0); tris[k] = [o[0], o[1], far]; }
+        _ => {}
+    }
+    (pts, tris)
 }
 
 /// index buffers for `remove_unused`: which of the `n` points are referenced decides the path through the `swap_remove` loop
@@ -455,5 +521,15 @@ pub fn gen(r: &mut Rng, thorough: bool) -> Vec<(String, String)> {
         v.push(("remove_unused".into(), format!("{} {} {}", fmt3(&p), t.len(), t.iter().map(|t| format!("{} {} {}", t[0], t[1], t[2])).collect::<Vec<_>>().join(" ")).trim().to_string()));
     }
     if std::env::var("VERIF_DBG").is_ok() { eprintln!("C12 remove_unused families 0..9: {:?}", fam_count); }
+    // fu5: the maintainers' validator on valid hull meshes and on single mutations of them
+    let m6 = if thorough { 1200 } else { 240 };
+    let mut vfam = [0usize; 12];
+    for it in 0..m6 {
+        let fam = (it % 12) as u64;
+        vfam[fam as usize] += 1;
+        let (p, t) = validate_case(r, fam);
+        v.push(("validate3".into(), format!("{} {} {}", fmt3(&p), t.len(), t.iter().map(|t| format!("{} {} {}", t[0], t[1], t[2])).collect::<Vec<_>>().join(" ")).replace("  ", " ").trim().to_string()));
+    }
+    if std::env::var("VERIF_DBG").is_ok() { eprintln!("C12 validate3 families 0..11: {:?}", vfam); }
     v
 }
